@@ -578,6 +578,27 @@ theorem flattened_keeps_both_orders (vfs : Vfs) (who : Who) (href : Str) (sheet 
   have : (flatSpec vfs who href sheet).val = .ok (hoist c) := by simp [flatSpec, h]
   rw [resolveImports_flat_kept_partial vfs who href sheet _ this, this]
 
+/-- cascade order at EVERY depth: wherever the specification has a value, the rules of the flattened sheet that
+are not @imports are exactly `bodyRules sheet` — the depth-first traversal of the import tree defined without file
+system, fetcher, target, insertion position or hoisting: own rules in document order; for an @import without media
+the marker comment and the re-based body of its target; with media one @media rule around it, or only the marker
+comment when the target cannot be wrapped — and an @import is left in the flattened sheet exactly when `bodyRules`
+says one has to be kept. With `resolveImports_flat_kept_partial` this is a statement about `resolveImports`. -/
+theorem flattened_body_is_depth_first (vfs : Vfs) (who : Who) (href : Str) (sheet out : Sheet)
+    (h : (flatSpec vfs who href sheet).val = .ok out) :
+    bodyRules sheet = .ok (out.filter notImp, out.any isImp) ∧
+    (resolveImports vfs who href sheet).val = .ok out := by
+  constructor
+  · unfold flatSpec at h
+    cases hc : (cascRules vfs who href sheet).val with
+    | error e => simp [hc] at h
+    | ok c =>
+      simp [hc] at h; subst h
+      have := cascRules_body vfs who sheet href c hc
+      have e1 : (hoist c).filter notImp = c.filter notImp := hoist_others c
+      rw [this, e1, any_isImp_hoist]
+  · rw [resolveImports_flat_kept_partial vfs who href sheet out h, h]
+
 /-- where the kept @imports go (the general form of C19-kept-import-hoisted): either the groups start with a rule
 that is not an @import and stays in front — a comment — and all kept @imports follow it, or the kept @imports come
 first; everything else behind them -/
@@ -705,6 +726,16 @@ example :
        .imp (cps "b.css") (cps "print") true (cps "http://h/b.css") [.page [] [] []],
        .imp (cps "x.css") mediaAll false [] []]).log = [(.user, cps "http://h/x.css")] := by
   constructor <;> decide +kernel
+
+/-- `bodyRules` on that tree: marker comment of a, the style rule of a, marker comment of b (whose target is not
+merged) — kinds 1 4 1 — and "an @import is kept" -/
+example :
+    (match bodyRules
+      [.imp (cps "a.css") mediaAll true (cps "http://h/a.css") [.style (cps "a") []],
+       .imp (cps "b.css") (cps "print") true (cps "http://h/b.css") [.page [] [] []],
+       .imp (cps "x.css") mediaAll false [] []] with
+     | .ok (b, k) => some (b.map Rule.tag, k)
+     | .error _ => none) = some ([1, 4, 1], true) := by decide +kernel
 
 /-- non-vacuity, nested: `@import "css/a.css";` with `css/a.css` = `@import "b.css" print; a{}` and `css/b.css` =
 `@page{}`: the kept @import of the inner sheet is taken over into the outer group, behind the marker comment -/
